@@ -43,6 +43,17 @@ def planted (initS : String) : List Server × Int × Nat :=
           if acc.1.any (fun x => x.addr.key == s.addr.key) then acc else (acc.1 ++ [{ s with version := s.version + 1 }], acc.2)
         | none => acc
       | _ => acc
+    else if it.startsWith "call|update!" then
+      -- `Update` with the overwriting resolver: whatever is stored, the caller's record replaces it (a history in which
+      -- the refresh time of a record goes back); on a missing address it is stored as new
+      match (it.drop 12).toString.splitOn "!" with
+      | [srv, "over"] => match parseServer srv with
+        | some s =>
+          if acc.1.any (fun x => x.addr.key == s.addr.key)
+          then (acc.1.map (fun x => if x.addr.key == s.addr.key then { s with version := x.version + 1 } else x), acc.2)
+          else (acc.1 ++ [{ s with version := s.version + 1 }], acc.2)
+        | none => acc
+      | _ => acc
     else if it.startsWith "call|penq!" then (acc.1, acc.2.1, acc.2.2 + 1)
     else acc) ([], epoch, 0)
 
